@@ -859,3 +859,52 @@ def name_agreement(ctx, P, classes=("Tree",), rule="MODULE-NAME", floor=20):
                    "%s reaches %s" % (cfunc, want) if ok else "%s is registered as `%s` but never reaches %s (it uses %s)" % (cfunc, pyname, want, other))
     ctx.floor(rule, floor)
     return n
+
+
+def module_every_path(ctx, P, classes=("Tree",), rule="MODULE-EVERY-PATH", floor=5):
+    """Path-sensitive companion of MODULE-NAME: a wrapper that calls its library namesake produces a result only after that call."""
+    ctx.rule(rule, "a method of the wrapped classes that calls the libtskit function of the same name cannot produce a result without "
+                   "it: in the wrapper's flow graph no path from the entry reaches an assignment `ret = <non-NULL>` while avoiding "
+                   "every node that makes the call (an early `ret = Py_BuildValue(...)` on a fast path answers without the kernel "
+                   "the other rules analyse)")
+    tu = P.tus["module"]
+    meths, _ = modinfo.method_tables(tu)
+    libfuncs = set()
+    for k in P.tus:
+        if k != "module":
+            libfuncs |= set(P.tus[k].funcs)
+    n = 0
+    for cls in classes:
+        prefixes, _struct = NAME_CLASSES[cls]
+        for pyname, cfunc in meths.get(cls + "_methods", []):
+            t = re.sub(r"^get_", "", pyname)
+            cands = set()
+            for p in prefixes:
+                cands |= {p + pyname, p + "get_" + t, p + t, p + pyname + "f"}
+            fc = cands & libfuncs
+            fn = tu.funcs.get(cfunc)
+            if not fc or fn is None or fn.body is None:
+                continue
+            if not any(callee(c) in fc for c in calls(fn.body)):
+                continue
+            cfg = CFG(fn)
+            cn = [x for x in cfg.nodes if x.kind in ("stmt", "cond", "switch") and x.ast is not None
+                  and any(y.k == "CallExpr" and callee(y) in fc for y in walk(x.ast))]
+
+            def produces(x):
+                a = strip(x.ast) if (x.ast is not None and x.kind == "stmt") else None
+                if a is None or a.k != "BinaryOperator" or a.op != "=" or estr(a.kids[0]) != "ret":
+                    return False
+                r = " ".join(estr(strip(a.kids[1])).split())
+                return r not in ("NULL", "-1", "((void *)0)") and not r.startswith("PyErr_")
+            bad = None
+            for s in cfg.nodes:
+                if produces(s) and cfg.path_exists(cfg.entry, s, avoid=cn):
+                    bad = s
+                    break
+            n += 1
+            ctx.ob(rule, "%s.%s" % (cls, pyname), bad is None, tu.loc(bad.ast if bad is not None else fn.node),
+                   "every result of %s is produced after the call to %s" % (cfunc, sorted(fc)[0]) if bad is None else
+                   "%s can set `%s` on a path that never calls %s" % (cfunc, " ".join(tu.src(bad.ast).split())[:60], sorted(fc)[0]))
+    ctx.ob(rule, "instances", n >= floor, "python/_tskitmodule.c", "%d wrappers with a direct call to their library namesake" % n)
+    return n
